@@ -1,7 +1,7 @@
 INIT FInit
 NEXT FNext
 CONSTANTS
-  Keys <- MCKeys
+  Keys <- SimKeys
   HandlerIds = {1, 2}
   CTypes = {}
   Defaults = {}
@@ -10,11 +10,15 @@ CONSTANTS
   MaxUpdate = 1
   ClearOnSet = TRUE
   ClearOnDelete = TRUE
-  Accepts <- MCAccepts
+  BareKeyShortcut = FALSE
+  Accepts <- SimAccepts
   JsonT <- TJson
   TextXmlT <- TTXml
   AppXmlT <- TAXml
+  SufJson <- MCSufJson
+  SufXml <- MCSufXml
   MemoiseOffered = FALSE
+  ExactLookup = FALSE
   Depth = 7
 INVARIANT OfferedFollowsMapping
 INVARIANT TypeAndBodyAgree
